@@ -153,6 +153,7 @@ class SymInterp(Interp):
         self.order = order
         self.max_iter = max_iter
         self.resolver = resolver      # name -> SynFn-like (body, param_names) for helper functions to evaluate inline
+        self.method_resolver = None   # (recv, method name) -> SynFn-like: small predicates of the receiver's type evaluated inline
         self.inline_depth = 0
 
     # ---- scoping -----------------------------------------------------------------------------
@@ -308,6 +309,10 @@ class SymInterp(Interp):
                     raise
         if k == "continue":
             raise _Continue(e.get("label"))
+        if k == "call" and e["f"]["k"] == "path" and e["f"]["p"] in env:
+            fv = env[e["f"]["p"]]
+            if isinstance(fv, tuple) and fv and fv[0] == "closure":
+                return self.call_closure(fv, [self.eval(a, env) for a in e["a"]])
         if k == "call" and self.resolver is not None and e["f"]["k"] == "path":
             pth = e["f"]["p"]
             last = pth.rsplit("::", 1)[-1]
@@ -393,6 +398,10 @@ class SymInterp(Interp):
         raise CannotEstablish("binary %s on %r, %r (line %s)" % (op, l, r, e.get("ln")))
 
     def default_method(self, recv, m, args, e):
+        if self.method_resolver is not None and isinstance(recv, Variant):
+            f = self.method_resolver(recv, m)
+            if f is not None:
+                return self.inline(f, args, recv=recv)
         if isinstance(recv, list):
             if m in ("iter", "into_iter", "iter_mut", "as_slice", "to_vec", "clone", "collect", "copied", "cloned", "as_ref", "by_ref"):
                 return recv if m not in ("to_vec", "clone") else list(recv)
@@ -452,6 +461,13 @@ class SymInterp(Interp):
             if recv is None or (isinstance(recv, Variant) and recv.last == "None"):
                 return None
             return self.call_closure(args[0], [recv])
+        if m in ("checked_sub", "saturating_sub") and len(args) == 1 and isinstance(recv, int) and isinstance(args[0], int):
+            d = recv - args[0]
+            if m == "checked_sub":
+                return d if d >= 0 else None
+            return max(d, 0)
+        if m in ("try_into", "try_from"):
+            return recv
         if m == "clamp" and len(args) == 2 and all(isinstance(x, int) for x in (recv, args[0], args[1])):
             return max(args[0], min(recv, args[1]))
         if m in ("unwrap_or", "unwrap_or_default") and recv is not None:
